@@ -16,6 +16,7 @@ N == Len(Rec)
 
 VARIABLE l
 ObsVariant == "intended"
+ObsInfoVariant == "shared"
 
 V(r) == [ver |-> r.v.ver, hosthdr |-> r.v.hosthdr, auth |-> r.v.auth, sni |-> r.v.sni, tls |-> r.v.tls]
 O(r) == [kind |-> r.o.kind, validated |-> r.o.validated]
